@@ -15,6 +15,14 @@ import (
 )
 
 var corpus = []string{
+	// comments at every position where the parser skips one, terminated and NOT terminated
+	"/*", "/**", "/*/", " /*", "/* S1F1.", "/* /* */ S1F1.", "/*/*/S1F1.", "/* a */ /* b */ S1F1.", "/* a */ /* S1F1.", "//", "// S1F1.", "//\n/*", "/", "/ * */S1F1.",
+	"S1F1 /*", "S1F1\n/* <L>.", "S1F1 // <L>.", "S1F1 /* c */ /* <L>.", "S1F1 W /**", "S1F1 /*/ <L>.", "S1F1 /*/", "S1F1/*", "S1F1 /* x */.", "S1F1 /* x",
+	"S1F1 <L /* >.", "S1F1 <L[1] /*", "S1F1 <L[1]/**/ /* <L>>.", "S1F1 <A /* \"x\">.", "S1F1 <A /* c */ \"x\">.", "S1F1 <U1 // 1>.", "S1F1 <U1 /* 1 */ 2>.", "S1F1 <U1 /* 1>.", "S1F1 <BOOLEAN /*/ T>.", "S1F1 <J /* 'x'>.",
+	"S1F1 <L <A \"x\"> /* >.", "S1F1 <L <L> /* <L>>.", "S1F1 <L <L> // x", "S1F1 <L <L> /* a */ /* b", "S1F1 <L <U1 1> /*/ <U1 2>>.", "S1F1 <L <L> /**/>.",
+	"S1F1 <L> /* .", "S1F1 <L> // .", "S1F1 <L> /*/ .", "S1F1 <L> /* c */ /* .", "S1F1 <A \"x\"> /*",
+	"S1F1. /*", "S1F1 <L>. /* trailing", "S1F1. //", "S1F1./*/", "S1F1. /**", "S1F1. /* c */ /*", "S1F1. /* c */ S1F2 /*", "S1F1.\n/*\nS1F2.", "S1F1. // c\n/* S1F2.",
+	"S1F1 <A \"/* x\">.", "S1F1 <A \"// x\">.", "S1F1 <J '/*'>.", "S1F1 <W \"/*\">.", "S1F1 <A \"*/\" /* >.", "S1F1 <A '/*' 0x2F 0x2A>.", "name/*:S1F1.", "/*:*/S1F1.",
 	"", " ", "\n\n", ".", "S1F1.", "S1F1 W.", "S1F1\n.", "S1F1 W\n.", "S0F0.", "S127F255 W.", "S128F1.", "S1F256.", "S1F2 W.",
 	"S1F1", "S1", "S", "SF.", "S1F.", "S1Fx.", "Sx.", "s1f1.", "S01F001.", "S999999999999999999999F1.",
 	"name:S1F1.", ":S1F1 W.", "a:b:S1F1.", "name: 'S1F1' W\n<L>.", "\"S2F3\"\n.", "'S1F1\".", "name:\n'S6F11' W <L [0]>\n.",
